@@ -482,6 +482,96 @@ Proof.
     + intros i Hi. apply H2. lia.
 Qed.
 
+(* ------------------------------------------------------------------ concat in an index type of W values *)
+Lemma shifted_rows_w_mod {A B} (W : nat) (ds : list (cds A B)) : forall po so,
+  shifted_rows_w W po so ds
+  = (map (fun i => i mod W) (fst (shifted_rows po so ds)), map (fun i => i mod W) (snd (shifted_rows po so ds))).
+Proof.
+  induction ds as [|d t IH]; intros po so; cbn [shifted_rows_w shifted_rows fst snd map]; [reflexivity|].
+  rewrite IH. cbn [fst snd]. rewrite !map_app, !map_map. reflexivity.
+Qed.
+
+Lemma map_mod_id W l : 0 < W -> (map (fun i => i mod W) l = l <-> Forall (fun i => i < W) l).
+Proof.
+  intros HW. induction l as [|x t IH]; cbn [map].
+  - split; [constructor|reflexivity].
+  - split.
+    + intros E. injection E as Ex Et. constructor.
+      * rewrite <- Ex. apply Nat.mod_upper_bound. lia.
+      * apply IH. exact Et.
+    + intros H. inversion H as [|? ? Hx Ht]; subst. f_equal.
+      * apply Nat.mod_small. exact Hx.
+      * apply IH. exact Ht.
+Qed.
+
+Lemma concat_width_is_mod_l {A B} (W : nat) (ds : list (cds A B)) :
+  prow (concat_w W ds) = map (fun i => i mod W) (prow (concat_c ds)) /\
+  srow (concat_w W ds) = map (fun j => j mod W) (srow (concat_c ds)) /\
+  pvals (concat_w W ds) = pvals (concat_c ds) /\ svals (concat_w W ds) = svals (concat_c ds).
+Proof.
+  unfold concat_w, concat_c. cbn [prow srow pvals svals]. rewrite shifted_rows_w_mod. cbn [fst snd].
+  repeat split; reflexivity.
+Qed.
+
+Lemma concat_w_eq_iff {A B} (W : nat) (ds : list (cds A B)) : 0 < W ->
+  (concat_w W ds = concat_c ds <->
+   Forall (fun i => i < W) (prow (concat_c ds)) /\ Forall (fun j => j < W) (srow (concat_c ds))).
+Proof.
+  intros HW. destruct (concat_width_is_mod_l W ds) as (Hp & Hs & Hpv & Hsv).
+  split.
+  - intros E. rewrite E in Hp, Hs. split; apply (map_mod_id W _ HW); symmetry; assumption.
+  - intros [Fp Fs]. apply (map_mod_id W _ HW) in Fp, Fs.
+    destruct (concat_w W ds) as [p s pv sv], (concat_c ds) as [p' s' pv' sv']. cbn [prow srow pvals svals] in *.
+    subst. rewrite Fp, Fs. reflexivity.
+Qed.
+
+Lemma concat_fits_width_iff_l {A B} (W : nat) (ds : list (cds A B)) : 0 < W -> Forall compact_ok ds ->
+  (concat_w W ds = concat_c ds <-> length (flat_map pvals ds) <= W /\ length (flat_map svals ds) <= W).
+Proof.
+  intros HW Hok. rewrite (concat_w_eq_iff W ds HW).
+  destruct (concat_compact_ok_l ds Hok) as (_ & [Hpv Hps] & [Hsv Hss]).
+  unfold concat_c in *. cbn [prow srow pvals svals] in *.
+  split.
+  - intros [Fp Fs]. rewrite Forall_forall in Fp, Fs. split.
+    + destruct (Nat.le_gt_cases (length (flat_map pvals ds)) W) as [H|H]; [exact H|].
+      specialize (Fp W (Hps W H)). lia.
+    + destruct (Nat.le_gt_cases (length (flat_map svals ds)) W) as [H|H]; [exact H|].
+      specialize (Fs W (Hss W H)). lia.
+  - intros [Lp Ls]. split; (eapply Forall_impl; [|eassumption]); cbn beta; intros i Hi; lia.
+Qed.
+
+Lemma expand_concat_any_width_l {A B} (da : A) (db : B) (W : nat) (ds : list (cds A B)) :
+  0 < W -> Forall compact_ok ds -> length (flat_map pvals ds) <= W -> length (flat_map svals ds) <= W ->
+  expand da db (concat_w W ds) = concat (map (expand da db) ds) /\ compact_ok (concat_w W ds).
+Proof.
+  intros HW Hok Lp Ls. rewrite (proj2 (concat_fits_width_iff_l W ds HW Hok) (conj Lp Ls)). split.
+  - apply expand_concat_l. eapply Forall_impl; [|exact Hok]. intros d. apply compact_ok_valid.
+  - apply concat_compact_ok_l. exact Hok.
+Qed.
+
+Lemma nonvacuous_width_l :
+  let d1 := mk_cds (seq 0 150) (seq 0 150) (seq 200 150) (seq 400 150) in
+  let d2 := mk_cds (seq 0 150) (seq 0 150) (seq 600 150) (seq 800 150) in
+  Forall compact_ok [d1; d2] /\ length (flat_map pvals [d1; d2]) = 300 /\
+  concat_w 512 [d1; d2] = concat_c [d1; d2] /\
+  concat_w 256 [d1; d2] <> concat_c [d1; d2] /\
+  nth 260 (srow (concat_c [d1; d2])) 0 = 260 /\ nth 260 (srow (concat_w 256 [d1; d2])) 0 = 4 /\
+  nth 260 (expand 0 0 (concat_c [d1; d2])) (0, 0) = (710, 910) /\
+  nth 260 (expand 0 0 (concat_w 256 [d1; d2])) (0, 0) = (204, 404) /\
+  compact_okb (concat_w 256 [d1; d2]) = false.
+Proof.
+  cbv zeta.
+  assert (Hok : Forall compact_ok [mk_cds (seq 0 150) (seq 0 150) (seq 200 150) (seq 400 150);
+                                   mk_cds (seq 0 150) (seq 0 150) (seq 600 150) (seq 800 150)]).
+  { apply Forall_cons; [|apply Forall_cons; [|apply Forall_nil]]; apply compact_okb_iff_l; vm_compute; reflexivity. }
+  split; [exact Hok|]. split; [vm_compute; reflexivity|].
+  split.
+  - apply concat_fits_width_iff_l; [lia|exact Hok|]. split; apply Nat.leb_le; vm_compute; reflexivity.
+  - split.
+    + intros E. apply (concat_fits_width_iff_l 256 _ ltac:(lia) Hok) in E. destruct E as [E _]. apply Nat.leb_le in E. vm_compute in E. discriminate E.
+    + do 4 (split; [vm_compute; reflexivity|]). vm_compute; reflexivity.
+Qed.
+
 (* ------------------------------------------------------------------ statements used by Props/C13.v *)
 Lemma rows_running_l prim : Forall (fun p => p < length prim) prim ->
   length (rows_for prim) = length prim /\
